@@ -285,6 +285,7 @@ def base_inventory(base: bytes):
     switch_names = [v.switch(k)[1] for k in range(256)] if v.swnm else []
     return {"locs": locs, "cuwps": cuwps, "cuwp_raw": {i: v.cuwps[i - 1] for i in cuwps},
             "switch_names": [x for x in switch_names if x],
+            "named_switch_ids": [k for k, x in enumerate(switch_names) if x],
             "texts": texts, "wavs": wavs, "has_unis": b"UNIS" in v.by_name,
             "has_unix": b"UNIx" in v.by_name, "nloc": len(v.locs)}
 
@@ -336,6 +337,10 @@ def gen_scenario(rng: random.Random, base: bytes, kind="mixed"):
             pool["cuwps"].append(tw)
             twin_index = len(pool["cuwps"]) - 1
     for k in range(ns):
+        if inv.get("named_switch_ids") and rng.random() < 0.25:
+            # referred to BY NUMBER only (no name), the number being that of a switch the map has a name for
+            pool["switches"].append([None, rng.choice(inv["named_switch_ids"])])
+            continue
         if inv.get("switch_names") and rng.random() < 0.3:
             # referred to BY NAME only, with the exact name of a switch the map already has (used by a trigger or not)
             pool["switches"].append([rng.choice(inv["switch_names"]), None])
